@@ -59,6 +59,13 @@ def history(g, solver, needed=(), zeta=False):
         full = r.choice(pool)
         k = r.choice(list(needed))
         calls.append({"call": "run", "solver": solver, "rebuild": False, "params": {a: b for a, b in full.items() if a != k}})
+    if needed and not zeta and r.random() < 0.35:
+        # default parameters replaced by a dictionary with the same names and other values between two runs that rely on
+        # them (the runner cached by model.run must see the new ones)
+        d1, d2 = r.sample(pool, 2)
+        k = r.choice(list(needed))
+        calls += [{"call": "set_defaults", "params": d1}, {"call": "run", "solver": solver, "rebuild": False, "params": {a: b for a, b in d1.items() if a != k}},
+                  {"call": "set_defaults", "params": d2}, {"call": "run", "solver": solver, "rebuild": False, "params": {a: b for a, b in d2.items() if a != k}}]
     # make sure some call repeats an earlier one after other parameter values were used
     runs = [x for x in calls if x["call"] == "run" and len(x["params"]) == (5 if zeta else 4)]
     if runs:
